@@ -212,6 +212,7 @@ func c10MemoCells(c *Ctx) {
 	}
 	var pend []pending
 	var reqs []string
+	hiddenReported := 0
 	mkCell := func(i int) (string, []memoItem, func() *value.List, bool) {
 		if i%5 == 4 {
 			lc := memoLibCells[(i/5)%len(memoLibCells)]
@@ -274,6 +275,10 @@ func c10MemoCells(c *Ctx) {
 					// the open finding, and nothing else: the untouched list makes THIS operation run out of value stack, and
 					// the shared list shows exactly what the untouched one shows with enough stack
 					hidden = true
+					c.Count("memo:overflow-hidden-by-cache")
+					if hiddenReported++; hiddenReported > 5 {
+						continue // the open finding is reported a few times, counted always
+					}
 					c.Violation("stack-limit-hidden-by-materialised-list", "an operation that runs out of value stack on an untouched list succeeds on a list an earlier operation has materialised",
 						map[string]any{"cell": desc, "items": memoItemsField(items), "operation": o.String(), "outcome": out, "isolated": iso})
 					continue
